@@ -93,8 +93,8 @@ def refs_paired(r, F):
     # insert_inner: one handle per notifier (inside the loop over `notifiers`), one returned
     ii = F.fn("foyer_memory::raw::RawCache::insert_inner")
     aggs = [(b.idx, s) for b in ii.blocks if not b.cleanup for s in b.stmts if s.k == "assign" and s.rv.k == "agg" and s.rv.j.get("adt") == ENTRY]
-    nexts = [b for b in ii.calls_to(r"iter::Iterator::next$") if set(backslice(ii, b.term.args[0], "prov").locals) & set(ii.var_locals("notifiers")) or
-             any(l in backslice(ii, b.term.args[0], "dep").locals for l in ii.var_locals("notifiers"))]
+    nvec = {l for l in range(ii.nlocals) if ii.local_ty(l).startswith("std::vec::Vec<mea::oneshot::Sender<")}
+    nexts = [b for b in ii.calls_to(r"iter::Iterator::next$") if backslice(ii, b.term.args[0], "dep").locals & nvec]
     sends = [b.idx for b in ii.calls_to(r"oneshot::Sender::<T>::send$")]
     per_notifier = False
     for nb in nexts:
